@@ -111,3 +111,106 @@ func ruleStop(p *Prog, r *Report) {
 		r.OK("STOP", key, p.posStr(f.Pos()), fmt.Sprintf("%d exits from the loop besides the end of the stream, under %v", n, seen))
 	}
 }
+
+// ---- EXLEN: the library's own Exif callback consumes exactly the window it was declared ---------------------------
+//
+// CONS counts a callback as consuming header.ExifLength bytes (the property's proviso for foreign callbacks). For the
+// callback the library itself installs, exif2.DecodeJPEGIfd, that is decidable: every store to ifdReader.exifLength in
+// it is the unmodified h.ExifLength (no cap, no rounding), and its last step on the success path is
+// discard(int(exifLength) − int(po)), which brings the position to the end of the declared window. A shorter length
+// leaves the last bytes of the segment to the marker scanner (FF D9 of an embedded thumbnail ends the scan early).
+func ruleExLen(p *Prog, r *Report) {
+	f := p.Func("exif2", "*ifdReader", "DecodeJPEGIfd")
+	key := "exif2.(*ifdReader).DecodeJPEGIfd | consumes exactly header.ExifLength"
+	if f == nil || len(f.Params) < 3 {
+		r.Undecided("EXLEN", key, "-", "unresolved anchor")
+		return
+	}
+	at := p.posStr(f.Pos())
+	// h is a by-value struct parameter: fields are read through a local copy (Alloc + FieldAddr) or *ssa.Field
+	isHdrLen := func(v ssa.Value) bool {
+		for i := 0; i < 3; i++ {
+			switch x := v.(type) {
+			case *ssa.Field:
+				return fieldNameV(x.X.Type(), x.Field) == "ExifLength"
+			case *ssa.UnOp:
+				if fa, ok := x.X.(*ssa.FieldAddr); ok && x.Op == token.MUL {
+					return fieldName(fa.X.Type(), fa.Field) == "ExifLength"
+				}
+				return false
+			case *ssa.ChangeType:
+				v = x.X
+			default:
+				return false
+			}
+		}
+		return false
+	}
+	bad := ""
+	nStores := 0
+	eachInstr(f, func(_ *ssa.BasicBlock, _ int, in ssa.Instruction) {
+		st, ok := in.(*ssa.Store)
+		if !ok {
+			return
+		}
+		fa, ok := st.Addr.(*ssa.FieldAddr)
+		if !ok || fieldName(fa.X.Type(), fa.Field) != "exifLength" {
+			return
+		}
+		nStores++
+		if !isHdrLen(st.Val) {
+			bad = "exifLength is set to " + shortVal(st.Val) + " at " + p.posStr(instrPos(st)) + ", not to the header's ExifLength: the decoder then stops short of (or runs past) the window the scanner accounts for"
+		}
+	})
+	if nStores == 0 {
+		bad = "exifLength is never set from the header"
+	}
+	// the closing discard
+	found := false
+	eachCall(f, func(site ssa.CallInstruction) {
+		c := site.Common()
+		sc := c.StaticCallee()
+		if sc == nil || sc.Name() != "discard" || len(c.Args) != 2 {
+			return
+		}
+		a := affineOf(c.Args[1], 0)
+		pos, neg := 0, 0
+		for k, co := range a.Terms {
+			v, ok := k.(ssa.Value)
+			if !ok {
+				continue
+			}
+			u, ok := v.(*ssa.UnOp)
+			if !ok {
+				continue
+			}
+			if fa, ok := u.X.(*ssa.FieldAddr); ok {
+				switch fieldName(fa.X.Type(), fa.Field) {
+				case "exifLength":
+					if co == 1 {
+						pos++
+					}
+				case "po":
+					if co == -1 {
+						neg++
+					}
+				}
+			}
+		}
+		if pos == 1 && neg == 1 && a.C == 0 && len(a.Terms) == 2 {
+			// it must be the last thing before the final return
+			blk := site.Block()
+			if _, isRet := blk.Instrs[len(blk.Instrs)-1].(*ssa.Return); isRet {
+				found = true
+			}
+		}
+	})
+	switch {
+	case bad != "":
+		r.Bad("EXLEN", key, at, bad)
+	case !found:
+		r.Bad("EXLEN", key, at, "the success path does not end with discard(int(exifLength) - int(po)): the rest of the declared window is left to the marker scanner")
+	default:
+		r.OK("EXLEN", key, at, fmt.Sprintf("%d store(s) of the header's ExifLength, closing discard of exifLength - po", nStores))
+	}
+}
